@@ -118,7 +118,7 @@ func dropLock(t *Task, l any) {
 
 //go:norace
 func (k *Kernel) wakeLockWaiters(l any) {
-	for _, o := range k.tasks {
+	for _, o := range k.live {
 		if o.State() == BlockedLock && o.waitLock == l {
 			o.setState(Parked)
 		}
